@@ -2,7 +2,7 @@
 import re
 from fractions import Fraction
 from .. import spec
-from ..gen import G
+from ..gen import Qty, G
 from ..common import run_apps, app, out_of, sig
 from ..core import unhx
 
@@ -51,6 +51,15 @@ def gen(g, count):
         blocks = [g.log(book=book, exact=True, days=r.randint(0, 3) if not long_blocks else r.choice([120, 150, 300]), unusual=0.1, max_entries=4) for _ in range(k)]
         if r.random() < 0.3 and blocks[0]:
             blocks[1] = list(reversed(blocks[0]))          # a block that differs only in order
+        if r.random() < 0.03:
+            # a period with scores of distinct foods, some of them logged again in the next block (tables that grow, then are revisited)
+            import datetime
+            pool = [('item/n%03d' % i).encode() for i in range(r.choice([65, 70, 130, 300]))]
+            r.shuffle(pool)
+            one = Qty(b'1', Fraction(1))
+            two = Qty(b'2', Fraction(2))
+            blocks = [[(datetime.date(2021, 1, 24), [(f, one) for f in pool], [])],
+                      [(datetime.date(2021, 1, 25), [(f, two) for f in r.sample(pool, 12)] + [(pool[0], one), (pool[-1], one)], [])]]
         # quantities with two decimals at most, so that printed period figures add up exactly
         texts = [g.render_log(b, varied=False, crlf=False, final_nl=True) for b in blocks]
         # blocks end with a newline and start with a heading: plain concatenation is the appended file
